@@ -1,5 +1,282 @@
-"""Checker self-test (thorough tier): mutants must be reported, benign variants must stay silent."""
+"""Checker self-test (thorough tier): a fixed, fully enumerated catalogue of single edits to a scratch copy of
+/repo/autograd.  Every MUTANT (still compiles; wrong only in an unsampled configuration) must be reported by
+the rule it targets; every BENIGN variant (behaviour preserving) must leave all checks silent.
+
+Scratch copies live under $TMPDIR/vsa-<pid>-<n>/ and are removed immediately after each variant.
+An edit whose anchor text is no longer present in the tree is 'inapplicable' (the repo moved on), reported in
+the tallies; the self-test fails only if an applicable mutant is missed or an applicable benign variant fires.
+"""
+import os
+import shutil
+import tempfile
+
+NV = "autograd/numpy/numpy_vjps.py"
+NJ = "autograd/numpy/numpy_jvps.py"
+NW = "autograd/numpy/numpy_wrapper.py"
+NB = "autograd/numpy/numpy_boxes.py"
+NS = "autograd/numpy/numpy_vspaces.py"
+LA = "autograd/numpy/linalg.py"
+FF = "autograd/numpy/fft.py"
+CO = "autograd/core.py"
+TR = "autograd/tracer.py"
+BU = "autograd/builtins.py"
+DO = "autograd/differential_operators.py"
+WU = "autograd/wrap_util.py"
+
+# (name, {property: rule expected to fire}, [(file, old, new), ...])
+MUTANTS = [
+    ("drop-unbroadcast-logaddexp2", {"C01": "A3.vjp", "C05": "A3.vjp"}, [(NV, "lambda ans, x, y: unbroadcast_f(y, lambda g: g * 2 ** (y - ans)),", "lambda ans, x, y: lambda g: g * 2 ** (y - ans),")]),
+    ("unbroadcast-wrong-target-hypot", {"C01": "A3.vjp", "C05": "A3.vjp"}, [(NV, "lambda ans, x, y: unbroadcast_f(x, lambda g: g * x / ans),", "lambda ans, x, y: unbroadcast_f(y, lambda g: g * x / ans),")]),
+    ("matmul-adjoint-no-unbroadcast", {"C01": "A3.vjp", "C05": "A3.vjp"}, [(NV, "    result = anp.matmul(G, B)\n    return unbroadcast(result, A_meta)", "    result = anp.matmul(G, B)\n    return result")]),
+    ("where-vjp-no-unbroadcast", {"C05": "A3.vjp"}, [(NV, "lambda ans, c, x=None, y=None: unbroadcast_f(x, lambda g: anp.where(c, g, anp.zeros(g.shape))),", "lambda ans, c, x=None, y=None: lambda g: anp.where(c, g, anp.zeros(g.shape)),")]),
+    ("subtract-jvp-no-broadcast", {"C02": "A3.jvp"}, [(NJ, "lambda g, ans, x, y: broadcast(-g, ans))", "lambda g, ans, x, y: -g)")]),
+    ("same-on-cumprod", {"C02": "A1.lin", "C04": "A1.lin"}, [(NJ, 'defjvp(anp.cumsum, "same")', 'defjvp(anp.cumsum, "same")\ndefjvp(anp.cumprod, "same")')]),
+    ("same-on-add", {"C02": "A1.lin", "C04": "A1.lin"}, [(NJ, "defjvp(anp.add, lambda g, ans, x, y: broadcast(g, ans), lambda g, ans, x, y: broadcast(g, ans))", 'defjvp(anp.add, "same", "same")')]),
+    ("def-linear-on-power", {"C02": "A1.lin"}, [(NJ, "def_linear(anp.multiply)", "def_linear(anp.multiply)\ndef_linear(anp.float_power)")]),
+    ("nograd-smooth-function", {"C14": "A1.nograd", "C15": "A1.nograd"}, [(NV, "    anp.result_type,\n]", "    anp.result_type,\n    anp.cbrt,\n]")]),
+    ("wrapper-notrace-smooth", {"C14": "A1.nograd", "C15": "A1.nograd"}, [(NW, "notrace_functions = [_np.ndim, _np.shape, _np.iscomplexobj, _np.result_type]", "notrace_functions = [_np.ndim, _np.shape, _np.iscomplexobj, _np.result_type, _np.cbrt]")]),
+    ("notrace-one-node-type-only", {"C14": "A1.sym"}, [(NJ, "for fun in nograd_functions:\n    register_notrace(JVPNode, fun)", "for fun in nograd_functions:\n    register_notrace(JVPNode, fun)\nregister_notrace(JVPNode, anp.spacing)")]),
+    ("none-rule-on-smooth-arg", {"C14": "A1.none", "C15": "A1.none"}, [(NV, "defvjp(anp.negative, lambda ans, x: lambda g: -g)", "defvjp(anp.negative, lambda ans, x: lambda g: -g)\ndefvjp(anp.copysign, None, None)")]),
+    ("surplus-maker-dropped", {"C01": "A1.arity", "C02": "A1.arity"}, [(NJ, 'defjvp(anp.full, "same", argnums=(1,))', 'defjvp(anp.full, "same", "same", argnums=(1,))')]),
+    ("method-bound-to-other-function", {"C14": "A1.methods"}, [(NB, 'setattr(ArrayBox, "flatten", anp.__dict__["ravel"])', 'setattr(ArrayBox, "flatten", anp.__dict__["squeeze"])')]),
+    ("helper-primitive-loses-vjp", {"C07": "A1.helpers"}, [(NV, "defvjp(untake, lambda ans, x, idx, _: lambda g: g[idx])\n", "")]),
+    ("box-without-vspace", {"C05": "A1.types", "C13": "A1.types"}, [(NS, "for type_ in [float, np.longdouble, np.float64, np.float32, np.float16]:", "for type_ in [float, np.longdouble, np.float64, np.float32]:")]),
+    ("sparse-types-lose-box", {"C11": "A1.types", "C13": "A1.types"}, [(CO, "sparse_object_types = {SparseObject, SparseBox}", "sparse_object_types = {SparseObject}")]),
+    ("fft2-parser-renames-s", {"C01": "A2.catchall"}, [(FF, "def get_fft2_args(a, s=None, axes=(-2, -1), norm=None, *args, **kwargs):\n    return axes, s, norm", "def get_fft2_args(a, shape=None, axes=(-2, -1), norm=None, *args, **kwargs):\n    return axes, shape, norm")]),
+    ("fft-parser-renames-n-back", {"C01": "A2.catchall"}, [(FF, "def get_fft_args(a, n=None, axis=-1, norm=None, *args, **kwargs):\n    axes = [axis]\n    if n is not None:\n        n = [n]\n    return axes, n, norm", "def get_fft_args(a, d=None, axis=-1, norm=None, *args, **kwargs):\n    axes = [axis]\n    if d is not None:\n        d = [d]\n    return axes, d, norm")]),
+    ("array-from-args-offset", {"C01": "A2.variadic"}, [(NV, "return lambda g: g[argnum - 2]", "return lambda g: g[argnum - 1]")]),
+    ("make-sequence-jvp-offset", {"C12": "A2.variadic"}, [(BU, "return container_untake(g, argnum - 1, vspace(ans))", "return container_untake(g, argnum - 2, vspace(ans))")]),
+    ("extend-left-uses-right-layout", {"C12": "A2.layout"}, [(BU, "return lambda g: g[len(elts) :] if argnum == 0 else g[argnum - 1]", "return lambda g: g[: len(seq)] if argnum == 0 else g[len(seq) + argnum - 1]")]),
+    ("outer-loses-match-complex", {"C05": "A4.match", "C09": "A4.match"}, [(NV, "lambda ans, a, b: lambda g: match_complex(a, anp.dot(g, b.T)),", "lambda ans, a, b: lambda g: anp.dot(g, b.T),")]),
+    ("fft-loses-match-complex", {"C09": "A4.match", "C05": "A4.match"}, [(FF, "    return lambda g: match_complex(x, truncate_pad(fft_fun(g, *args, **kwargs), vs.shape))", "    return lambda g: truncate_pad(fft_fun(g, *args, **kwargs), vs.shape)")]),
+    ("inner-loses-match-complex", {"C05": "A4.match", "C09": "A4.match"}, [(NV, "        return lambda G: match_complex(A, tensordot_adjoint_0(B, G, axes, A_ndim, B_ndim))\n    elif argnum == 1:", "        return lambda G: tensordot_adjoint_0(B, G, axes, A_ndim, B_ndim)\n    elif argnum == 1:")]),
+    ("complex-covector-override-deleted", {"C09": "A4.vspace", "C13": "A4.vspace"}, [(NS, "    def _covector(self, x):\n        return np.conj(x)\n", "")]),
+    ("complex-inner-prod-no-conj", {"C09": "A4.vspace", "C13": "A4.vspace"}, [(NS, "return np.real(np.dot(np.conj(np.ravel(x)), np.ravel(y)))", "return np.real(np.dot(np.ravel(x), np.ravel(y)))")]),
+    ("std-vjp-loses-conj", {"C09": "A4.modulus"}, [(NV, "            x_minus_mean = anp.conj(x - anp.mean(x, axis=axis, keepdims=True))\n            return g_repeated * x_minus_mean / (num_reps - ddof)", "            x_minus_mean = x - anp.mean(x, axis=axis, keepdims=True)\n            return g_repeated * x_minus_mean / (num_reps - ddof)")]),
+    ("norm-vjp-loses-conj", {"C09": "A4.modulus"}, [(LA, "return expand(g / ans) * anp.conj(x)", "return expand(g / ans) * x")]),
+    ("tan-jvp-wrong-power", {"C04": "A5", "C01": "A5", "C09": "A5"}, [(NJ, "defjvp(anp.tan, lambda g, ans, x: g / anp.cos(x) ** 2)", "defjvp(anp.tan, lambda g, ans, x: g / anp.cos(x))")]),
+    ("imag-jvp-sign", {"C04": "A5", "C09": "A5"}, [(NJ, "defjvp(anp.imag, lambda g, ans, x: match_complex(ans, -1j * g))", "defjvp(anp.imag, lambda g, ans, x: match_complex(ans, 1j * g))")]),
+    ("arctan2-vjp-arg1-sign", {"C04": "A5", "C01": "A5"}, [(NV, "lambda ans, x, y: unbroadcast_f(y, lambda g: g * -x / (x**2 + y**2)),", "lambda ans, x, y: unbroadcast_f(y, lambda g: g * x / (x**2 + y**2)),")]),
+    ("log1p-vjp-off-by-one", {"C04": "A5"}, [(NV, "defvjp(anp.log1p, lambda ans, x: lambda g: g / (x + 1))", "defvjp(anp.log1p, lambda ans, x: lambda g: g / x)")]),
+    ("vjp-nonlinear-in-g", {"C04": "A5.lin"}, [(NV, "defvjp(anp.fabs, lambda ans, x: lambda g: anp.sign(x) * g)", "defvjp(anp.fabs, lambda ans, x: lambda g: anp.sign(x) * g * anp.abs(g))")]),
+    ("vjp-affine-in-g", {"C04": "A5.lin"}, [(NV, "defvjp(anp.expm1, lambda ans, x: lambda g: (ans + 1) * g)", "defvjp(anp.expm1, lambda ans, x: lambda g: (ans + 1) * g + ans)")]),
+    ("missing-rule-swallowed", {"C15": "A6.raise", "C17": "A6.raise", "C03": "A6.raise"}, [(CO, '            except KeyError:\n                raise NotImplementedError(f"VJP of {fun.__name__} wrt argnum 0 not defined")', "            except KeyError:\n                return lambda g: (vspace(args[argnum]).zeros(),)")]),
+    ("rule-lookup-with-default", {"C15": "A6.raise", "C17": "A6.raise"}, [(CO, "            vjps = [vjps_dict[argnum](ans, *args, **kwargs) for argnum in argnums]", "            vjps = [vjps_dict.get(argnum, vjps_dict[0])(ans, *args, **kwargs) for argnum in argnums]")]),
+    ("new-box-swallows-keyerror", {"C15": "A6.raise"}, [(TR, "    except KeyError:\n        raise TypeError(f\"Can't differentiate w.r.t. type {type(value)}\")", "    except KeyError:\n        return value")]),
+    ("guard-bypassed-by-early-return", {"C15": "A6.dom"}, [(NV, "    # TODO: Cast input with np.asanyarray()\n    if len(x.shape) > 1:\n        raise NotImplementedError(\"Gradient of sort not implemented for multi-dimensional arrays.\")", "    if axis == 0:\n        return lambda g: unpermuter(g, anp.argsort(x, axis, kind, order))\n    if len(x.shape) > 1:\n        raise NotImplementedError(\"Gradient of sort not implemented for multi-dimensional arrays.\")")]),
+    ("jvp-guard-deleted-partition", {"C02": "A6.sibling", "C15": "A6.sibling"}, [(NJ, "    if len(x.shape) > 1:\n        raise NotImplementedError(\"Gradient of partition not implemented for multi-dimensional arrays.\")\n    partition_perm", "    partition_perm")]),
+    ("jvp-guard-deleted-atleast", {"C02": "A6.sibling", "C15": "A6.sibling"}, [(NJ, "        if len(arys) > 1:\n            raise NotImplementedError(\"Can't handle multiple arguments yet.\")\n        return fun(g)", "        return fun(g)")]),
+    ("rfft-norm-only-none", {"C01": "A6.enum", "C15": "A6.enum"}, [(FF, '    if norm is None or norm == "backward":\n        fac /= N\n    elif norm == "forward":\n        fac *= N\n    elif norm != "ortho":\n        raise NotImplementedError("Real FFT gradient not implemented for norm={}".format(norm))', "    if norm is None:\n        fac /= N")]),
+    ("elementwise-grad-check-removed", {"C15": "A6.ops", "C16": "A6.ops"}, [(DO, '    if vspace(ans).iscomplex:\n        raise TypeError("Elementwise_grad only applies to real-output functions.")\n', "")]),
+    ("arraybox-setitem-added", {"C15": "A6.ops", "C06": "A6.ops"}, [(NB, "    def __len__(self):\n        return len(self._value)\n\n    def astype", "    def __len__(self):\n        return len(self._value)\n\n    def __setitem__(self, idx, val):\n        self._value[idx] = val\n\n    def astype")]),
+    ("stack-default-axis", {"C06": "A6.wrapsig"}, [(NW, "def stack(arrays, axis=0):", "def stack(arrays, axis=-1):")]),
+    ("append-default-axis", {"C06": "A6.wrapsig"}, [(NW, "def append(arr, values, axis=None):", "def append(arr, values, axis=0):")]),
+    ("select-returns-raw", {"C15": "A6.rawcall"}, [(NW, "    return array(list(raw_array.ravel())).reshape(raw_array.shape)", "    return raw_array")]),
+    ("repeat-negative-axis-unnormalised", {"C01": "A7"}, [(NV, "    if axis is not None and axis < 0:\n        axis = axis + len(shape)\n", "")]),
+    ("norm-axis-pair-unnormalised", {"C01": "A7"}, [(LA, "def norm_vjp(ans, x, ord=None, axis=None):\n    if isinstance(axis, tuple):\n        axis = tuple(a % x.ndim for a in axis)\n", "def norm_vjp(ans, x, ord=None, axis=None):\n")]),
+    ("chooser-jvp-sorted-raw-axes", {"C02": "A7"}, [(NJ, "for ax in sorted(a % anp.ndim(x) for a in axis):", "for ax in sorted(axis):")]),
+    ("transpose-argsort-raw-axes", {"C01": "A7"}, [(NV, "axes = anp.argsort([axis % len(axes) for axis in axes])", "axes = anp.argsort(axes)")]),
+    ("cumsum-axis-arithmetic", {"C01": "A7"}, [(NV, "            return reverse_axis(anp.cumsum(reverse_axis(g, axis), axis), axis)", "            return anp.flip(anp.cumsum(anp.flip(g, axis), axis), axis) if axis + 1 < x.ndim else reverse_axis(anp.cumsum(reverse_axis(g, axis), axis), axis)")]),
+    ("raw-numpy-on-argument", {"C07": "A8"}, [(NV, "defvjp(anp.sin, lambda ans, x: lambda g: g * anp.cos(x))", "defvjp(anp.sin, lambda ans, x: lambda g: g * onp.cos(x))")]),
+    ("raw-numpy-on-cotangent", {"C07": "A8"}, [(NV, "    return lambda g: anp.sum(g, axis=broadcast_axes, keepdims=True)", "    return lambda g: onp.sum(g, axis=broadcast_axes, keepdims=True)")]),
+    ("raw-numpy-in-helper", {"C07": "A8"}, [(NV, "        x_minus_mean = anp.conj(x - anp.mean(x, axis=axis, keepdims=True))\n        return 2.0 * g_repeated", "        x_minus_mean = anp.conj(x - onp.mean(x, axis=axis, keepdims=True))\n        return 2.0 * g_repeated")]),
+    ("add-becomes-mut-add-on-borrowed", {"C10": "A9.proto", "C11": "A9.proto"}, [(CO, "                return vs.add(prev_g, g), True", "                return vs.mut_add(prev_g, g), True")]),
+    ("first-contribution-flag-true", {"C10": "A9.proto"}, [(CO, "            return g, False", "            return g, True")]),
+    ("sparse-add-into-borrowed", {"C10": "A9.proto", "C11": "A9.proto"}, [(CO, "                prev_g_mutable = vs.mut_add(None, prev_g)\n                return sparse_add(vs, prev_g_mutable, g), True", "                return sparse_add(vs, prev_g, g), True")]),
+    ("user-cotangent-flag-true", {"C10": "A9.proto"}, [(CO, "    outgrads = {end_node: (g, False)}", "    outgrads = {end_node: (g, True)}")]),
+    ("sparse-test-narrowed", {"C11": "A9.proto"}, [(CO, "    sparse = type(g) in sparse_object_types", "    sparse = type(g) is SparseObject")]),
+    ("vspace-add-in-place", {"C10": "A9.pure", "C13": "A9.pure"}, [(CO, "    def _add(self, x, y):\n        return x + y", "    def _add(self, x, y):\n        x += y\n        return x")]),
+    ("mut-add-none-reuses-argument", {"C10": "A9.pure", "C13": "A9.pure"}, [(CO, "        x_prev = x_prev if x_prev is not None else self.zeros()\n        return self._mut_add(x_prev, x_new)", "        if x_prev is None:\n            return x_new\n        return self._mut_add(x_prev, x_new)")]),
+    ("rule-mutates-cotangent", {"C10": "A9.inplace"}, [(NV, "        if iscomplex:\n            g = g + 0j\n        g_repeated, num_reps = repeat_to_match_shape(g, shape, dtype, axis, keepdims)\n        x_minus_mean", "        if iscomplex:\n            g += 0j\n        g_repeated, num_reps = repeat_to_match_shape(g, shape, dtype, axis, keepdims)\n        x_minus_mean")]),
+    ("primitive-sorts-input-in-place", {"C10": "A9.inplace", "C06": "A9.inplace"}, [(NW, "def concatenate_args(axis, *args):\n    return", "def concatenate_args(axis, *args):\n    args[0].sort()\n    return")]),
+    ("scatter-with-buffered-add", {"C11": "A9.scatter"}, [(NV, "        onp.add.at(A, idx, x)", "        A[idx] += x")]),
+    ("vjps-built-as-generator", {"C10": "A10", "C19": "A10", "C07": "A10"}, [(CO, "        vjps = [vjpmaker(argnum, *args) for argnum in argnums]", "        vjps = (vjpmaker(argnum, *args) for argnum in argnums)")]),
+    ("closure-pops-captured-list", {"C10": "A10", "C19": "A10"}, [(NV, "    def vjp(g):\n        for axis, rep in enumerate(reps):", "    reps = list(reps)\n\n    def vjp(g):\n        reps.reverse()\n        for axis, rep in enumerate(reps):")]),
+    ("module-level-memo-in-vspace", {"C19": "A11.state"}, [(CO, "def vspace(value):\n    try:\n        return VSpace.mappings[type(value)](value)", "_vspace_memo = {}\n\n\ndef vspace(value):\n    try:\n        _vspace_memo[id(value)] = type(value)\n        return VSpace.mappings[type(value)](value)")]),
+    ("lru-cache-on-helper", {"C19": "A11.state"}, [(NV, "def balanced_eq(x, z, y):", "import functools\n\n\n@functools.lru_cache(maxsize=None)\ndef balanced_eq(x, z, y):")]),
+    ("registry-written-from-rule", {"C19": "A11.state"}, [(NV, "def grad_transpose(ans, x, axes=None):", "def grad_transpose(ans, x, axes=None):\n    nograd_functions.append(anp.transpose)")]),
+    ("thread-local-removed", {"C20": "A11.thread"}, [(TR, "class TraceStack(threading.local):", "class TraceStack:")]),
+    ("second-global-counter", {"C20": "A11.thread", "C19": "A11.state"}, [(TR, "trace_stack = TraceStack()", "class _CallCounter:\n    def __init__(self):\n        self.n = 0\n\n    def bump(self):\n        self.n += 1\n        return self.n\n\n\ncall_counter = _CallCounter()\ntrace_stack = TraceStack()")]),
+    ("top-reset-in-handler", {"C19": "A12.bal", "C08": "A12.bal", "C20": "A12.bal"}, [(TR, "        self.top += 1\n        yield self.top\n        self.top -= 1", "        self.top += 1\n        try:\n            yield self.top\n        except BaseException:\n            self.top = -1\n            raise\n        self.top -= 1")]),
+    ("yield-before-increment", {"C08": "A12.bal", "C19": "A12.bal"}, [(TR, "        self.top += 1\n        yield self.top\n        self.top -= 1", "        yield self.top\n        self.top += 1\n        self.top -= 1")]),
+    ("top-reset-elsewhere", {"C19": "A12.bal"}, [(TR, "def trace(start_node, fun, x):\n    with", "def trace(start_node, fun, x):\n    if not isbox(x):\n        trace_stack.top = -1\n    with")]),
+    ("reset-on-greater-equal", {"C08": "A12.top"}, [(TR, "            if trace > top_trace:", "            if trace >= top_trace:")]),
+    ("append-branch-dropped", {"C08": "A12.top"}, [(TR, "            elif trace == top_trace:\n                top_boxes.append((argnum, arg))\n", "")]),
+    ("dependence-by-greater-equal", {"C08": "A12.top", "C06": "A12.top", "C14": "A12.top"}, [(TR, "        if isbox(end_box) and end_box._trace == start_box._trace:", "        if isbox(end_box) and end_box._trace >= start_box._trace:")]),
+    ("rebox-with-global-top", {"C08": "A12.top"}, [(TR, "            return new_box(ans, trace, node)", "            return new_box(ans, trace_stack.top, node)")]),
+    ("trace-id-arithmetic", {"C19": "A12.cmp"}, [(TR, "                top_trace = trace\n", "                top_trace = trace + 0\n")]),
+    ("trace-id-compared-with-constant", {"C19": "A12.cmp"}, [(TR, "        if isbox(end_box) and end_box._trace == start_box._trace:", "        if isbox(end_box) and end_box._trace == start_box._trace and end_box._trace < 64:")]),
+    ("trace-returns-box", {"C06": "A13.unbox", "C08": "A13.unbox", "C14": "A13.unbox"}, [(TR, "            return end_box._value, end_box._node", "            return end_box, end_box._node")]),
+    ("wrapper-unboxes-recursively", {"C08": "A13.unbox", "C06": "A13.unbox"}, [(TR, "argvals = subvals(args, [(argnum, box._value) for argnum, box in boxed_args])", "argvals = subvals(args, [(argnum, getval(box)) for argnum, box in boxed_args])")]),
+    ("wrapper-calls-raw-on-partially-unboxed", {"C08": "A13.unbox", "C03": "A13.unbox", "C17": "A13.unbox"}, [(TR, "            ans = f_wrapped(*argvals, **kwargs)", "            ans = f_raw(*argvals, **kwargs)")]),
+    ("notrace-branch-calls-raw", {"C14": "A13.unbox", "C08": "A13.unbox"}, [(TR, "                return f_wrapped(*argvals, **kwargs)", "                return f_raw(*argvals, **kwargs)")]),
+    ("notrace-primitive-one-level", {"C06": "A13.unbox", "C14": "A13.unbox"}, [(TR, "getval = lambda x: getval(x._value) if isbox(x) else x", "getval = lambda x: x._value if isbox(x) else x")]),
+    ("parents-reversed", {"C03": "A13.align", "C17": "A13.align"}, [(TR, "parents = tuple(box._node for _, box in boxed_args)", "parents = tuple(box._node for _, box in reversed(boxed_args))")]),
+    ("fast-path-swapped", {"C03": "A13.align", "C17": "A13.align"}, [(CO, "            return lambda g: (vjp_0(g), vjp_1(g))", "            return lambda g: (vjp_1(g), vjp_0(g))")]),
+    ("fast-path-wrong-key", {"C03": "A13.align", "C17": "A13.align"}, [(CO, "                vjp_1_fun = vjps_dict[argnum_1]", "                vjp_1_fun = vjps_dict[argnum_0 + 1]")]),
+    ("same-substitutes-at-zero", {"C17": "A13.align", "C02": "A13.align"}, [(CO, "        return lambda g, ans, *args, **kwargs: fun(*subval(args, argnum, g), **kwargs)", "        return lambda g, ans, *args, **kwargs: fun(*subval(args, 0, g), **kwargs)")]),
+    ("def-linear-drops-kwargs", {"C17": "A13.align"}, [(CO, "    defjvp_argnum(fun, lambda argnum, g, ans, args, kwargs: fun(*subval(args, argnum, g), **kwargs))", "    defjvp_argnum(fun, lambda argnum, g, ans, args, kwargs: fun(*subval(args, argnum, g)))")]),
+    ("jvp-tangents-sorted", {"C03": "A13.align", "C17": "A13.align"}, [(CO, "        return sum_outgrads(jvps_dict[argnum](g, ans, *args, **kwargs) for argnum, g in zip(argnums, gs))", "        return sum_outgrads(jvps_dict[argnum](g, ans, *args, **kwargs) for argnum, g in zip(sorted(argnums, reverse=True), gs))")]),
+    ("accumulation-overwrites", {"C03": "A13.once", "C10": "A13.once"}, [(CO, "            outgrads[parent] = add_outgrads(outgrads.get(parent), ingrad)", "            outgrads[parent] = add_outgrads(None, ingrad)")]),
+    ("vjp-called-per-parent", {"C03": "A13.once"}, [(CO, "        ingrads = node.vjp(outgrad[0])\n        for parent, ingrad in zip(node.parents, ingrads):", "        ingrads = node.vjp(outgrad[0])\n        if len(node.parents) > 2:\n            ingrads = node.vjp(outgrad[0])\n        for parent, ingrad in zip(node.parents, ingrads):")]),
+    ("zeros-of-cotangent-space", {"C05": "A13.zero", "C14": "A13.zero", "C16": "A13.zero"}, [(CO, "        def vjp(g):\n            return vspace(x).zeros()", "        def vjp(g):\n            return vspace(g).zeros()")]),
+    ("jvp-zeros-of-input-space", {"C14": "A13.zero", "C02": "A13.zero"}, [(CO, "            return end_value, vspace(end_value).zeros()", "            return end_value, vspace(x).zeros()")]),
+    ("none-rule-zeros-of-first-arg", {"C17": "A13.zero", "C14": "A13.zero"}, [(CO, "        return lambda ans, *args, **kwargs: lambda g: vspace(args[argnum]).zeros()", "        return lambda ans, *args, **kwargs: lambda g: vspace(args[0]).zeros()")]),
+    ("make-jvp-tuple-flipped", {"C02": "A2.tuple", "C16": "A2.tuple"}, [(CO, "            return end_value, end_node.g", "            return end_node.g, end_value")]),
+    ("rsub-operands-swapped", {"C01": "A14", "C06": "A14"}, [(NB, "    def __rsub__(self, other):\n        return anp.subtract(other, self)", "    def __rsub__(self, other):\n        return anp.subtract(self, other)")]),
+    ("rtruediv-operands-swapped", {"C01": "A14", "C06": "A14"}, [(NB, "        return anp.true_divide(other, self)", "        return anp.true_divide(self, other)")]),
+    ("property-returns-other-attribute", {"C06": "A14", "C14": "A14"}, [(NB, "    size = property(lambda self: self._value.size)", "    size = property(lambda self: self._value.ndim)")]),
+    ("comparison-maps-to-traced", {"C14": "A14", "C15": "A14"}, [(NB, "    def __ge__(self, other):\n        return anp.greater_equal(self, other)", "    def __ge__(self, other):\n        return anp.maximum(self, other)")]),
+    ("dict-get-reads-raw", {"C12": "A14.containers"}, [(BU, "        return self[k] if k in self else d", "        return self._value.get(k, d)")]),
+    ("dict-values-read-raw", {"C12": "A14.containers"}, [(BU, "    def values(self):\n        return list(self.itervalues())", "    def values(self):\n        return list(self._value.values())")]),
+    ("radd-uses-right-extend", {"C12": "A14.containers"}, [(BU, "        return sequence_extend_left(self, *other)", "        return sequence_extend_right(self, *other)")]),
+    ("substitute-at-zero", {"C16": "A15"}, [(WU, "                    subargs = subvals(args, [(argnum, x)])", "                    subargs = subvals(args, [(0, x)])")]),
+    ("kwargs-dropped", {"C16": "A15", "C17": "A15"}, [(WU, "                return fun(*subargs, **kwargs)", "                return fun(*subargs)")]),
+    ("jacobian-shape-input-first", {"C16": "A15"}, [(DO, "    jacobian_shape = ans_vspace.shape + vspace(x).shape", "    jacobian_shape = vspace(x).shape + ans_vspace.shape")]),
+    ("jacobian-basis-of-input", {"C16": "A15"}, [(DO, "    grads = map(vjp, ans_vspace.standard_basis())", "    grads = map(vjp, vspace(x).standard_basis())")]),
+    ("value-and-grad-transforms-primal", {"C16": "A15", "C06": "A15"}, [(DO, "    return ans, vjp(vspace(ans).ones())", "    return np.asarray(ans), vjp(vspace(ans).ones())")]),
+    ("checkpoint-takes-value", {"C17": "A15", "C16": "A15"}, [(DO, "        return make_vjp(fun, argnum)(*args, **kwargs)[0]", "        return make_vjp(fun, argnum)(*args, **kwargs)[1]")]),
+    ("holomorphic-grad-of-imag", {"C09": "A15", "C16": "A15"}, [(DO, "    return grad(lambda x: np.real(fun(x)))(x)", "    return grad(lambda x: np.imag(fun(x)))(x)")]),
+    ("deriv-takes-value", {"C16": "A2.tuple"}, [(DO, "    return _make_jvp(fun, x)(vspace(x).ones())[1]", "    return _make_jvp(fun, x)(vspace(x).ones())[0]")]),
+    ("node-slots-permuted", {"C03": "A2.slot", "C17": "A2.slot"}, [(CO, "        self.vjp = vjpmaker(parent_argnums, value, args, kwargs)", "        self.vjp = vjpmaker(parent_argnums, args, value, kwargs)")]),
+    ("untake-pairing-drops-index", {"C11": "A2.repo"}, [(NV, "defvjp(func(ArrayBox.__getitem__), lambda ans, A, idx: lambda g: untake(g, idx, vspace(A)))", "defvjp(func(ArrayBox.__getitem__), lambda ans, A, idx: lambda g: untake(g, idx, vspace(g)))")]),
+    ("flatten-unsorted-keys", {"C12": "A2.flatten"}, [("autograd/misc/flatten.py", "        return _concatenate(_flatten(value[k]) for k in sorted(value))", "        return _concatenate(_flatten(value[k]) for k in value.keys())")]),
+    ("container-space-loses-subval", {"C12": "A1.spaces"}, [(BU, "    def _subval(self, xs, idx, x):\n        d = dict(xs.items())\n        d[idx] = x\n        return d\n", "")]),
+]
+
+BENIGN = [
+    ("alpha-rename-rule-params", [(NV, "    lambda ans, x, y: unbroadcast_f(x, lambda g: y * g),\n    lambda ans, x, y: unbroadcast_f(y, lambda g: x * g),", "    lambda ans, a, b: unbroadcast_f(a, lambda ct: b * ct),\n    lambda ans, a, b: unbroadcast_f(b, lambda ct: a * ct),")]),
+    ("commute-factor-sin", [(NV, "defvjp(anp.sin, lambda ans, x: lambda g: g * anp.cos(x))", "defvjp(anp.sin, lambda ans, x: lambda g: anp.cos(x) * g)")]),
+    ("square-as-product", [(NV, "defvjp(anp.arctan, lambda ans, x: lambda g: g / (1 + x**2))", "defvjp(anp.arctan, lambda ans, x: lambda g: g / (1 + x * x))")]),
+    ("division-as-reciprocal-product", [(NV, "    lambda ans, x, y: unbroadcast_f(x, lambda g: g / y),\n    lambda ans, x, y: unbroadcast_f(y, lambda g: -g * x / y**2),\n)\ndefvjp(\n    anp.maximum,", "    lambda ans, x, y: unbroadcast_f(x, lambda g: g * (1 / y)),\n    lambda ans, x, y: unbroadcast_f(y, lambda g: -g * x / y**2),\n)\ndefvjp(\n    anp.maximum,")]),
+    ("lambda-to-def", [(NV, "defvjp(anp.exp, lambda ans, x: lambda g: ans * g)", "def _exp_vjp(ans, x):\n    def vjp(g):\n        return ans * g\n\n    return vjp\n\n\ndefvjp(anp.exp, _exp_vjp)")]),
+    ("unbroadcast-f-written-out", [(NV, "    anp.add, lambda ans, x, y: unbroadcast_f(x, lambda g: g), lambda ans, x, y: unbroadcast_f(y, lambda g: g)\n", "    anp.add,\n    lambda ans, x, y: (lambda meta: lambda g: unbroadcast(g, meta))(anp.metadata(x)),\n    lambda ans, x, y: unbroadcast_f(y, lambda g: g),\n")]),
+    ("try-finally-around-decrement", [(TR, "        self.top += 1\n        yield self.top\n        self.top -= 1", "        self.top += 1\n        try:\n            yield self.top\n        finally:\n            self.top -= 1")]),
+    ("reordered-registrations", [(NV, "defvjp(anp.exp, lambda ans, x: lambda g: ans * g)\ndefvjp(anp.exp2, lambda ans, x: lambda g: ans * anp.log(2) * g)", "defvjp(anp.exp2, lambda ans, x: lambda g: ans * anp.log(2) * g)\ndefvjp(anp.exp, lambda ans, x: lambda g: ans * g)")]),
+    ("extra-constant-function-in-nograd", [(NV, "    anp.result_type,\n]", "    anp.result_type,\n    anp.isrealobj,\n    anp.digitize,\n]")]),
+    ("extra-linear-primitive-same", [(NJ, 'defjvp(anp.cumsum, "same")', 'defjvp(anp.cumsum, "same")\ndefjvp(anp.flip, "same")')]),
+    ("comments-and-blank-lines", [(NV, "# ----- Binary ufuncs -----\n", "# ----- Binary ufuncs -----\n#\n# (reformatted)\n\n\n"), (CO, "def backward_pass(g, end_node):\n", 'def backward_pass(g, end_node):\n    """Propagate g from end_node to the root."""\n'), (TR, "def find_top_boxed_args(args):\n", "def find_top_boxed_args(args):\n    # scan for the innermost trace\n")]),
+    ("rename-locals-backward-pass", [(CO, "    outgrads = {end_node: (g, False)}\n    for node in toposort(end_node):\n        outgrad = outgrads.pop(node)\n        ingrads = node.vjp(outgrad[0])\n        for parent, ingrad in zip(node.parents, ingrads):\n            outgrads[parent] = add_outgrads(outgrads.get(parent), ingrad)\n    return outgrad[0]", "    acc = {end_node: (g, False)}\n    for n in toposort(end_node):\n        cur = acc.pop(n)\n        contribs = n.vjp(cur[0])\n        for p, c in zip(n.parents, contribs):\n            acc[p] = add_outgrads(acc.get(p), c)\n    return cur[0]")]),
+    ("rename-locals-wrapper", [(TR, "        boxed_args, trace, node_constructor = find_top_boxed_args(args)\n        if boxed_args:\n            argvals = subvals(args, [(argnum, box._value) for argnum, box in boxed_args])\n            if f_wrapped in notrace_primitives[node_constructor]:\n                return f_wrapped(*argvals, **kwargs)\n            parents = tuple(box._node for _, box in boxed_args)\n            argnums = tuple(argnum for argnum, _ in boxed_args)\n            ans = f_wrapped(*argvals, **kwargs)\n            node = node_constructor(ans, f_wrapped, argvals, kwargs, argnums, parents)\n            return new_box(ans, trace, node)", "        tops, tid, ctor = find_top_boxed_args(args)\n        if tops:\n            vals = subvals(args, [(i, b._value) for i, b in tops])\n            if f_wrapped in notrace_primitives[ctor]:\n                return f_wrapped(*vals, **kwargs)\n            nums = tuple(i for i, _ in tops)\n            pars = tuple(b._node for _, b in tops)\n            out = f_wrapped(*vals, **kwargs)\n            nd = ctor(out, f_wrapped, vals, kwargs, nums, pars)\n            return new_box(out, tid, nd)")]),
+    ("flipped-comparison-find-top", [(TR, "            if trace > top_trace:", "            if top_trace < trace:")]),
+    ("normalise-axis-with-modulo", [(NV, "    if axis is not None and axis < 0:\n        axis = axis + len(shape)\n", "    if axis is not None:\n        axis = axis % len(shape)\n")]),
+    ("make-vjp-inverted-test", [(CO, "    if end_node is None:\n\n        def vjp(g):\n            return vspace(x).zeros()\n    else:\n\n        def vjp(g):\n            return backward_pass(g, end_node)", "    if end_node is not None:\n\n        def vjp(g):\n            return backward_pass(g, end_node)\n    else:\n\n        def vjp(g):\n            return vspace(x).zeros()")]),
+    ("commute-constant-square", [(NV, "defvjp(anp.square, lambda ans, x: lambda g: g * 2 * x)", "defvjp(anp.square, lambda ans, x: lambda g: 2 * g * x)")]),
+    ("helper-extracted", [(NV, "defvjp(anp.deg2rad, lambda ans, x: lambda g: g * anp.pi / 180.0)", "def _scale(g, c):\n    return g * c\n\n\ndefvjp(anp.deg2rad, lambda ans, x: lambda g: _scale(g, anp.pi / 180.0))")]),
+    ("rename-value-and-grad-locals", [(DO, "    vjp, ans = _make_vjp(fun, x)\n    if not vspace(ans).size == 1:\n        raise TypeError(\n            \"value_and_grad only applies", "    pullback, val = _make_vjp(fun, x)\n    ans, vjp = val, pullback\n    if not vspace(ans).size == 1:\n        raise TypeError(\n            \"value_and_grad only applies")]),
+    ("conj-alias-in-covector", [(NS, "    def _covector(self, x):\n        return np.conj(x)", "    def _covector(self, x):\n        return np.conjugate(x)")]),
+    ("dependence-test-against-yielded-id", [(TR, "        if isbox(end_box) and end_box._trace == start_box._trace:", "        if isbox(end_box) and end_box._trace == t:")]),
+    ("same-jvp-written-out", [(NJ, 'defjvp(anp.negative, "same")', "defjvp(anp.negative, lambda g, ans, x: -g)")]),
+    ("gradient-accumulator-augassign", [(NV, "            out = out + anp.swapaxes(out_axis, 0, a)", "            out += anp.swapaxes(out_axis, 0, a)")]),
+    ("match-complex-inlined-as-helper-call", [(NV, "defvjp(anp.real, lambda ans, x: lambda g: match_complex(x, g))", "def _to_kind_of(x):\n    return lambda g: match_complex(x, g)\n\n\ndefvjp(anp.real, lambda ans, x: _to_kind_of(x))")]),
+    ("extra-guard-in-jvp", [(NJ, "def fwd_grad_sort(g, ans, x, axis=-1, kind=\"quicksort\", order=None):\n", "def fwd_grad_sort(g, ans, x, axis=-1, kind=\"quicksort\", order=None):\n    if order is not None:\n        raise NotImplementedError(\"structured sort order\")\n")]),
+    ("add-outgrads-sparse-first", [(CO, "    else:\n        if sparse:\n            return sparse_add(vspace(g), None, g), True\n        else:\n            return g, False", "    else:\n        if not sparse:\n            return g, False\n        return sparse_add(vspace(g), None, g), True")]),
+    ("new-trace-local-copy", [(TR, "        self.top += 1\n        yield self.top\n        self.top -= 1", "        self.top += 1\n        yield self.top\n        self.top -= 1\n        # balanced")]),
+    ("where-with-zeros-like", [(NV, "    lambda ans, c, x=None, y=None: unbroadcast_f(x, lambda g: anp.where(c, g, anp.zeros(g.shape))),", "    lambda ans, c, x=None, y=None: unbroadcast_f(x, lambda g: anp.where(c, g, anp.zeros_like(g))),")]),
+]
+
+ALL_PROPS = ["C01", "C02", "C03", "C04", "C05", "C06", "C07", "C08", "C09", "C10", "C11", "C12", "C13", "C14", "C15", "C16", "C17", "C19", "C20"]
 
 
-def run_selftest(prop):
-    return {"summary": {"mutants": 0, "benign": 0, "note": "catalogue not built yet"}, "failed": []}
+def _scratch(root, edits):
+    """copy <root>/autograd into a fresh scratch dir and apply the edits; returns (dir, status)"""
+    d = tempfile.mkdtemp(prefix=f"vsa-{os.getpid()}-")
+    shutil.copytree(os.path.join(root, "autograd"), os.path.join(d, "autograd"), ignore=shutil.ignore_patterns("__pycache__", "*.pyc"))
+    for f, old, new in edits:
+        p = os.path.join(d, f)
+        try:
+            s = open(p).read()
+        except FileNotFoundError:
+            return d, f"inapplicable: {f} missing"
+        if s.count(old) != 1:
+            return d, f"inapplicable: anchor text occurs {s.count(old)} times in {f}"
+        s = s.replace(old, new)
+        try:
+            compile(s, p, "exec")
+        except SyntaxError as e:
+            return d, f"inapplicable: edit does not compile: {e}"
+        open(p, "w").write(s)
+    return d, "ok"
+
+
+def _run_variant(args):
+    kind, name, expected, edits, props, root = args
+    from .props import analyse_quiet
+
+    d, status = _scratch(root, edits)
+    try:
+        if status != "ok":
+            return {"kind": kind, "name": name, "status": status, "results": {}}
+        res = {}
+        for p in props:
+            r = analyse_quiet(p, d)
+            res[p] = {"code": r["code"], "rules": sorted({v[0] for v in r["violations"]}), "error": r.get("error"), "viol": [list(v) for v in r["violations"]][:4]}
+        return {"kind": kind, "name": name, "status": "ok", "results": res, "expected": expected}
+    finally:
+        shutil.rmtree(d, ignore_errors=True)
+
+
+def run_selftest(prop=None, root="/repo", jobs=None, verbose=False):
+    """prop=None: the whole catalogue against every property it names (mutants) / all properties (benign)."""
+    import multiprocessing as mp
+
+    tasks = []
+    for name, exp, edits in MUTANTS:
+        props = [p for p in exp if prop is None or p == prop]
+        if props:
+            tasks.append(("mutant", name, exp, edits, props, root))
+    for name, edits in BENIGN:
+        tasks.append(("benign", name, {}, edits, [prop] if prop else ALL_PROPS, root))
+    jobs = jobs or min(16, os.cpu_count() or 4)
+    ctx = mp.get_context("fork")
+    with ctx.Pool(jobs) as pool:
+        results = pool.map(_run_variant, tasks, chunksize=1)
+    failed, killed, silent, inapp = [], 0, 0, []
+    per_rule = {}
+    for r in results:
+        if r["status"] != "ok":
+            inapp.append(f"{r['kind']}:{r['name']}: {r['status']}")
+            continue
+        if r["kind"] == "mutant":
+            for p, got in r["results"].items():
+                want = r["expected"][p]
+                hit = got["code"] == 1 and any(x == want or x.startswith(want) for x in got["rules"])
+                d = per_rule.setdefault(want, {"mutants": 0, "killed": 0})
+                d["mutants"] += 1
+                if hit:
+                    killed += 1
+                    d["killed"] += 1
+                else:
+                    failed.append(f"MISSED mutant {r['name']} for {p}: expected {want}, got code {got['code']} rules {got['rules']} {got['error'] or ''}")
+        else:
+            for p, got in r["results"].items():
+                if got["code"] == 0:
+                    silent += 1
+                else:
+                    failed.append(f"FALSE ALARM on benign variant {r['name']} for {p}: code {got['code']} {got['viol']} {got['error'] or ''}")
+    n_mut = sum(1 for t in tasks if t[0] == "mutant")
+    n_ben = sum(1 for t in tasks if t[0] == "benign")
+    summary = {
+        "mutant_variants": n_mut,
+        "mutant_property_pairs_killed": killed,
+        "benign_variants": n_ben,
+        "benign_property_pairs_silent": silent,
+        "inapplicable": inapp,
+        "per_rule": per_rule,
+    }
+    if len(inapp) > max(3, (n_mut + n_ben) // 5):
+        failed.append(f"too many inapplicable self-test variants ({len(inapp)}): the catalogue no longer matches the tree")
+    return {"summary": summary, "failed": failed, "results": results if verbose else None}
+
+
+if __name__ == "__main__":
+    import json
+    import sys
+
+    sys.path.insert(0, os.path.dirname(os.path.dirname(os.path.abspath(__file__))))
+    prop = sys.argv[1] if len(sys.argv) > 1 and sys.argv[1] != "all" else None
+    out = run_selftest(prop)
+    print(json.dumps(out["summary"], indent=1))
+    for f in out["failed"]:
+        print(f)
+    sys.exit(1 if out["failed"] else 0)
